@@ -437,6 +437,7 @@ func execC13(t *testing.T, w *core.World, p *run.Plan, r *run.Result) {
 	var ops []*c13op
 	lastHeads := map[int]uint32{}
 	prevBest, prevBestHead, prevStep := -1, uint32(0), -1
+	badSince, l4Reported := time.Duration(-1), false
 	// W5 tolerates stalls of the waiting goroutines themselves (a descheduled caller still has to be told or to
 	// find the head when it subscribes); a stalled Run / connection goroutine legitimately delays notifications
 	poolSideStalled := false
@@ -503,6 +504,31 @@ func execC13(t *testing.T, w *core.World, p *run.Plan, r *run.Result) {
 			mu.Unlock()
 		}
 		prevBest, prevBestHead, prevStep = snap.BestID, bestHead, w.Steps
+		// L4 (bounded liveness of the refresh): the best connection is dead or more than two blocks behind while
+		// some other connection is alive and current, continuously: the pool has to move on within 35 simulated
+		// seconds (a generous ceiling over the documented refresh period), unless its own goroutines are stalled
+		if !poolSideStalled && snap.BestID >= 0 {
+			var bestC *pool.SimConnSnapshot
+			otherGood := false
+			for i, c := range snap.Conns {
+				if c.ID == snap.BestID {
+					bestC = &snap.Conns[i]
+				} else if c.IsOK && c.HeadSeqno+1 >= maxH {
+					otherGood = true
+				}
+			}
+			bad := bestC != nil && (!bestC.IsOK || bestC.HeadSeqno+2 < maxH)
+			if bad && otherGood {
+				if badSince < 0 {
+					badSince = now
+				} else if now-badSince > 35*time.Second && !l4Reported {
+					l4Reported = true
+					w.Violate("C13.L4", "C13.L4|best-not-refreshed", fmt.Sprintf("for %v the best connection (id=%d ok=%v head=%d) has been dead or stale while another pooled connection was alive and current (newest head %d); no refresh replaced it", now-badSince, bestC.ID, bestC.IsOK, bestC.HeadSeqno, maxH))
+				}
+			} else {
+				badSince = -1
+			}
+		}
 		if snap.Queued >= 10 {
 			w.Probe("notification-channel-full")
 		}
@@ -728,7 +754,46 @@ func execC13(t *testing.T, w *core.World, p *run.Plan, r *run.Result) {
 	if timeout+15*time.Second > drain {
 		drain = timeout + 15*time.Second
 	}
-	w.Run(func() bool { return false }, w.Steps+80000, w.Now()+drain)
+	// blocks keep coming during the drain (a pool that only recovers while the chain stands still is not whole)
+	drainStart := w.Now()
+	lastDrainBlock := drainStart
+	for k := 1; time.Duration(k)*blockIv < drain-2*time.Second; k++ {
+		k := k
+		at := drainStart + time.Duration(k)*blockIv
+		lastDrainBlock = at
+		w.AtAbs(at, "drain block", func() {
+			globalHead++
+			for i := range servers {
+				servers[i].SetHead(globalHead)
+			}
+		})
+	}
+	_ = lastDrainBlock
+	w.Run(func() bool { return false }, w.Steps+120000, drainStart+drain)
+	// L3 (bounded liveness of the choice): faults stopped `drain` ago (several refresh periods), every server is
+	// healthy and current: the best connection must be alive and not more than two blocks behind
+	if !p.Free {
+		snap := pl.SimSnapshot()
+		var maxH uint32
+		anyGood := false
+		for _, c := range snap.Conns {
+			if c.HeadSeqno > maxH {
+				maxH = c.HeadSeqno
+			}
+		}
+		var best *pool.SimConnSnapshot
+		for i, c := range snap.Conns {
+			if c.IsOK && c.HeadSeqno+1 >= maxH {
+				anyGood = true
+			}
+			if c.ID == snap.BestID {
+				best = &snap.Conns[i]
+			}
+		}
+		if anyGood && best != nil && (!best.IsOK || best.HeadSeqno+2 < maxH) {
+			w.Violate("C13.L3", "C13.L3|stale-best", fmt.Sprintf("%v after the last fault, with blocks arriving and healthy connections in the pool, the best connection is id=%d ok=%v head=%d (newest head %d)", drain, best.ID, best.IsOK, best.HeadSeqno, maxH))
+		}
+	}
 	var probes []*c13op
 	probesDone := false
 	w.At(0, "probes", func() {
